@@ -9,6 +9,7 @@ import (
 	"io/ioutil"
 	"os"
 	"strings"
+	"sync"
 
 	"github.com/goatcms/goatcore/filesystem"
 	"github.com/goatcms/goatcore/filesystem/filespace/diskfs"
@@ -54,8 +55,47 @@ func cipherOf(name string) cipherfs.Cipher {
 	return aesgcm256cfs.NewCipher()
 }
 
+// The caller keeps ONE slice per secret / salt name and hands it to every filespace it builds (slices with spare
+// capacity, as a caller reading settings into a reusable buffer has); what it passed in must stay what it was.
+var (
+	cryptBufMu sync.Mutex
+	cryptBufs  = map[string][]byte{}
+)
+
+func sharedBytes(s string) []byte {
+	cryptBufMu.Lock()
+	defer cryptBufMu.Unlock()
+	b, ok := cryptBufs[s]
+	if !ok {
+		b = make([]byte, len(s), len(s)+64)
+		copy(b, s)
+		for i := len(s); i < cap(b); i++ {
+			b[:cap(b)][i] = 0xAA
+		}
+		cryptBufs[s] = b
+	}
+	return b
+}
+
+// sharedBytesIntact reports whether any handed-in slice was written to (within its length or its spare capacity)
+func sharedBytesIntact() string {
+	cryptBufMu.Lock()
+	defer cryptBufMu.Unlock()
+	for s, b := range cryptBufs {
+		if string(b) != s {
+			return fmt.Sprintf("the caller's slice %q now reads %q", s, b)
+		}
+		for i := len(s); i < cap(b); i++ {
+			if b[:cap(b)][i] != 0xAA {
+				return fmt.Sprintf("the spare capacity of the caller's slice %q was written to (%q)", s, b[:cap(b)][len(s):i+1])
+			}
+		}
+	}
+	return ""
+}
+
 func newCryptFS(base filesystem.Filespace, c cryptCfg) (filesystem.Filespace, error) {
-	return encryptfs.NewEncryptFS(base, encryptfs.Settings{Secret: []byte("secret-" + c.Secret), Salt: []byte("salt-" + c.Salt), HostOnly: c.Host, Cipher: cipherOf(c.Cipher)})
+	return encryptfs.NewEncryptFS(base, encryptfs.Settings{Secret: sharedBytes("secret-" + c.Secret), Salt: sharedBytes("salt-" + c.Salt), HostOnly: c.Host, Cipher: cipherOf(c.Cipher)})
 }
 
 func cryptWrite(fs filesystem.Filespace, how, path string, data []byte) error {
@@ -175,6 +215,12 @@ func cmdCrypt(args []string) error {
 		if err1 != nil || err2 != nil {
 			cleanup()
 			return fmt.Errorf("NewEncryptFS: %v %v", err1, err2)
+		}
+		if what := sharedBytesIntact(); what != "" {
+			fail("settings-mutated", inner, baseKind, "NewEncryptFS changed the bytes it was handed: "+what)
+			cryptBufMu.Lock()
+			cryptBufs = map[string][]byte{}
+			cryptBufMu.Unlock()
 		}
 		plain := plainBytes(s.Plain)
 		const path = "d/secret.bin"
